@@ -11,6 +11,9 @@ def fmtOut (out : List (Key × Nat)) : String :=
   if out.isEmpty then "-" else
   joinWith "," ((sortList (α := Nat × Nat) out).map fun (p : Nat × Nat) => s!"{p.1}:{p.2}")
 
+abbrev DrvSt := St
+def drvInit : DrvSt := init
+
 def drvStep (s : St) (args : List String) : St × String :=
   match args with
   | ["reset"] => (init, "ok")
